@@ -285,3 +285,179 @@ Proof.
     cbn [cden]. rewrite (IHa _ eq_refl). unfold lden. rewrite lreal_lscale, Q2R_m1. cbn [lscale lim]. csolve.
 Qed.
 End Lin.
+
+(* --- evaluation of constants and monomials in PR_C --- *)
+Section Mono.
+Variable tv : nat -> R.
+Notation PR := (PR_C tv).
+
+Lemma kofZ_C z : kofZ PR z = RtoC (IZR z).
+Proof.
+  assert (Hp : forall p, kofZ PR (Zpos p) = RtoC (IZR (Zpos p))).
+  { induction p using Pos.peano_ind; [reflexivity|].
+    rewrite Pos2Z.inj_succ. unfold Z.succ. rewrite kofZ_add, IHp, plus_IZR, RtoC_plus. reflexivity. }
+  destruct z as [|p|p]; [reflexivity| apply Hp|].
+  change (Zneg p) with (Z.opp (Zpos p)). rewrite kofZ_opp, Hp, opp_IZR, RtoC_opp. reflexivity.
+Qed.
+Lemma kpow_RtoC x n : @kpow Cops (RtoC x) n = RtoC (x ^ n).
+Proof. induction n as [|n IH]; simpl; [reflexivity| rewrite IH, RtoC_mult; reflexivity]. Qed.
+Lemma gu_pow_C n : kpow (gu PR) n = cis (INR n * (PI / 16)).
+Proof. symmetry. apply cis_kpow. Qed.
+
+Lemma zpow_cis a e : zpow PR (cis a) (cis (- a)) e = cis (IZR e * a).
+Proof.
+  unfold zpow. destruct (0 <=? e)%Z eqn:E.
+  - apply Z.leb_le in E. rewrite <- cis_kpow, INR_IZR_INZ, Z2Nat.id by assumption. reflexivity.
+  - apply Z.leb_gt in E. rewrite <- cis_kpow, INR_IZR_INZ, Z2Nat.id by lia. rewrite opp_IZR. f_equal. ring.
+Qed.
+
+Fixpoint adot (l : list Z) (k : nat) : R :=
+  match l with [] => 0 | e :: l' => IZR e * atom_ang tv k + adot l' (S k) end.
+Lemma evalz_C l : forall k, evalz PR l k = cis (adot l k).
+Proof.
+  induction l as [|e l IH]; intro k; cbn [evalz adot].
+  - symmetry. apply cis_0.
+  - rewrite IH. cbn [gz gzi PR_C]. rewrite zpow_cis, cis_add. reflexivity.
+Qed.
+
+Fixpoint zdot (l : list Z) (j : nat) : R :=
+  match l with [] => 0 | e :: l' => IZR e * tv j + zdot l' (S j) end.
+Lemma adot_inter0 zs : forall j, adot (inter0 zs) (2 * j) = zdot zs j / 4.
+Proof.
+  induction zs as [|x zs IH]; intro j; cbn [inter0 adot zdot]; [field|].
+  replace (S (S (2 * j))) with (2 * S j)%nat by lia. rewrite IH, atom_ang_even. field.
+Qed.
+Lemma adot_inter1 ws : forall j, adot (inter1 ws) (2 * j) = PI * zdot ws j / 4.
+Proof.
+  induction ws as [|y ws IH]; intro j; cbn [inter1 adot zdot]; [field|].
+  replace (S (S (2 * j))) with (2 * S j)%nat by lia. replace (S (2 * j)) with (2 * j + 1)%nat by lia.
+  rewrite IH, atom_ang_odd. field.
+Qed.
+Lemma adot_interleave zs : forall ws j, adot (interleave zs ws) (2 * j) = zdot zs j / 4 + PI * zdot ws j / 4.
+Proof.
+  induction zs as [|x zs IH]; intros ws j.
+  - cbn [interleave]. rewrite adot_inter1. simpl. field.
+  - destruct ws as [|y ws].
+    + cbn [interleave]. rewrite adot_inter0. simpl. field.
+    + cbn [interleave adot zdot].
+      replace (S (S (2 * j))) with (2 * S j)%nat by lia. replace (S (2 * j)) with (2 * j + 1)%nat by lia.
+      rewrite IH, atom_ang_even, atom_ang_odd. field.
+Qed.
+
+Lemma qint_sound q z : qint q = Some z -> Q2R q = IZR z.
+Proof.
+  unfold qint. cbv zeta. destruct (Z.pos (Qden (Qred q)) =? 1)%Z eqn:E; [|discriminate].
+  intros [= <-]. apply Z.eqb_eq in E. rewrite <- (Qeq_eqR _ _ (Qred_correct q)).
+  unfold Q2R. rewrite E. field.
+Qed.
+Lemma qints_dot l : forall zs, qints (map (Qmult 4) l) = Some zs -> forall j, zdot zs j = 4 * qdot l tv j.
+Proof.
+  induction l as [|q l IH]; intros zs H j; cbn [map qints] in H.
+  - injection H as <-. simpl. ring.
+  - destruct (qint (4 * q)) as [z|] eqn:Ez; [|discriminate].
+    destruct (qints (map (Qmult 4) l)) as [zs'|] eqn:Ezs; [|discriminate]. injection H as <-.
+    cbn [zdot qdot]. rewrite (IH _ eq_refl), <- (qint_sound _ _ Ez), Q2R_mult, Q2R_4. ring.
+Qed.
+
+Lemma eval_mono m : eval PR (mono m) = Cmult (cis (INR (fst m) * (PI / 16))) (cis (adot (snd m) 0)).
+Proof.
+  unfold mono, eval, evalt. cbn [map ksum tc KS.th tu tz]. rewrite kofZ_C, gu_pow_C, evalz_C.
+  cbn [kpow]. cbn [K kadd kmul k0 k1 PO PR_C Cops]. ring.
+Qed.
+
+Theorem cis_mono_sound f m : cis_mono f = Some m -> eval PR (mono m) = cis (lreal tv f).
+Proof.
+  unfold cis_mono. destruct (Qeq_bool (lc f) 0) eqn:E0; [|discriminate].
+  destruct (qint (16 * lpi f)) as [p|] eqn:Ep; [|discriminate].
+  destruct (qints (map (Qmult 4) (lv f))) as [zs|] eqn:Ezs; [|discriminate].
+  destruct (qints (map (Qmult 4) (lpv f))) as [ws|] eqn:Ews; [|discriminate].
+  intros [= <-]. rewrite eval_mono. cbn [fst snd]. rewrite <- cis_add.
+  change 0%nat with (2 * 0)%nat at 1. rewrite adot_interleave, (qints_dot _ _ Ezs), (qints_dot _ _ Ews).
+  unfold lreal. rewrite (Qeqb0 _ E0).
+  apply qint_sound in Ep. rewrite Q2R_mult, Q2R_16 in Ep.
+  pose proof (Z.mod_pos_bound p 32 ltac:(lia)) as Hb.
+  rewrite INR_IZR_INZ, Z2Nat.id by lia.
+  pose proof (Z.div_mod p 32 ltac:(lia)) as Hd.
+  assert (Hm : IZR (p mod 32) = IZR p - 32 * IZR (p / 32)).
+  { rewrite Hd at 2. rewrite plus_IZR, mult_IZR. ring. }
+  rewrite Hm, <- Ep.
+  rewrite <- (cis_period _ (p / 32)). f_equal. field.
+Qed.
+
+Lemma mono_inv_pconj m : mono_inv m = pconj (mono m). Proof. reflexivity. Qed.
+Theorem cis_mono_inv_sound f m : cis_mono f = Some m -> eval PR (mono_inv m) = cis (- lreal tv f).
+Proof.
+  intro H. rewrite mono_inv_pconj. etransitivity; [exact (eval_pconj (CR_C tv) (mono m))|].
+  change (Cconj (eval PR (mono m)) = cis (- lreal tv f)). rewrite (cis_mono_sound f m H). apply cis_conj.
+Qed.
+
+Lemma log2pos_sound p : forall h, log2pos p = Some h -> IZR (Zpos p) = 2 ^ h.
+Proof.
+  induction p as [p IH|p IH|]; intros h H; cbn [log2pos] in H; try discriminate.
+  - destruct (log2pos p) as [n|]; [|discriminate]. injection H as <-.
+    rewrite Pos2Z.inj_xO, mult_IZR, (IH n eq_refl). simpl. ring.
+  - injection H as <-. reflexivity.
+Qed.
+
+Theorem pdyadic_sound q p : pdyadic q = Some p -> eval PR p = RtoC (Q2R q).
+Proof.
+  unfold pdyadic. cbv zeta. destruct (log2pos (Qden (Qred q))) as [h|] eqn:E; [|discriminate].
+  intro H. assert (Hp : pnorm [T (Qnum (Qred q)) h 0 []] = p) by congruence. rewrite <- Hp. clear H Hp.
+  rewrite eval_pnorm. unfold eval, evalt. cbn [map ksum tc KS.th tu tz evalz kpow].
+  rewrite kofZ_C. change (ghf PR) with (RtoC (/ 2)). rewrite kpow_RtoC.
+  rewrite <- (Qeq_eqR _ _ (Qred_correct q)). unfold Q2R at 1. rewrite (log2pos_sound _ _ E), pow_inv.
+  cbn [K kadd kmul k0 k1 PO PR_C Cops]. csolve.
+Qed.
+
+Lemma pinv_dyadic_sound q p : pinv_dyadic q = Some p -> Q2R q <> 0 /\ eval PR p = RtoC (/ Q2R q).
+Proof.
+  unfold pinv_dyadic. destruct (Qeq_bool q 0) eqn:E; [discriminate|]. intro H.
+  split.
+  - rewrite <- RMicromega.Q2R_0. apply RMicromega.Qeq_false. assumption.
+  - rewrite (pdyadic_sound _ _ H), Q2R_inv by (apply Qeq_bool_neq; assumption). reflexivity.
+Qed.
+
+Lemma eval_pI : eval PR pI = Ci.
+Proof.
+  unfold pI. rewrite eval_pu, gu_pow_C. replace (INR 8 * (PI / 16)) with (PI / 2) by (simpl; field). apply cis_PI2.
+Qed.
+Lemma eval_pu24 : eval PR (pu 24) = Copp Ci.
+Proof.
+  rewrite eval_pu, gu_pow_C. replace (INR 24 * (PI / 16)) with (3 * (PI / 2)) by (simpl; field).
+  unfold cis. rewrite cos_3PI2, sin_3PI2. apply Ceq; simpl; ring.
+Qed.
+
+Lemma inv_sqrt2 : / sqrt 2 = sqrt 2 / 2.
+Proof.
+  pose proof sqrt2_neq_0 as Hn. pose proof (sqrt_sqrt 2 ltac:(lra)) as H2.
+  apply (Rmult_eq_reg_l (sqrt 2)); [|exact Hn]. rewrite Rinv_r by exact Hn. nra.
+Qed.
+Lemma sqrt2_cis : Cplus (cis (PI / 4)) (cis (- (PI / 4))) = RtoC (sqrt 2).
+Proof.
+  unfold cis. rewrite cos_neg, sin_neg, cos_PI4, sin_PI4. unfold Rdiv. rewrite inv_sqrt2.
+  apply Ceq; cbn [fst snd Cplus RtoC]; field.
+Qed.
+Lemma isqrt2_cis : Cmult (RtoC (/ 2)) (Cplus (cis (PI / 4)) (cis (- (PI / 4)))) = RtoC (/ sqrt 2).
+Proof.
+  rewrite sqrt2_cis, inv_sqrt2. apply Ceq; cbn [fst snd Cmult RtoC]; field.
+Qed.
+Lemma gu_4 : kpow (gu PR) 4 = cis (PI / 4).
+Proof. rewrite gu_pow_C. f_equal. simpl; field. Qed.
+Lemma gu_28 : kpow (gu PR) 28 = cis (- (PI / 4)).
+Proof.
+  rewrite gu_pow_C. replace (INR 28 * (PI / 16)) with (- (PI / 4) + IZR 1 * (2 * PI)) by (simpl; field).
+  apply cis_period.
+Qed.
+Lemma eval_psqrt2 : eval PR psqrt2 = RtoC (sqrt 2).
+Proof.
+  rewrite <- sqrt2_cis, <- gu_4, <- gu_28. unfold psqrt2, eval, evalt. cbn [map ksum tc KS.th tu tz evalz].
+  rewrite !kofZ_C. change (kpow (ghf PR) 0) with (RtoC 1).
+  cbn [K kadd kmul k0 k1 PO PR_C Cops]. ring.
+Qed.
+Lemma eval_pisqrt2 : eval PR pisqrt2 = RtoC (/ sqrt 2).
+Proof.
+  rewrite <- isqrt2_cis, <- gu_4, <- gu_28. unfold pisqrt2, eval, evalt. cbn [map ksum tc KS.th tu tz evalz].
+  rewrite !kofZ_C. change (kpow (ghf PR) 1) with (Cmult (RtoC (/ 2)) (RtoC 1)).
+  cbn [K kadd kmul k0 k1 PO PR_C Cops]. ring.
+Qed.
+End Mono.
